@@ -322,3 +322,21 @@ def l1_recv(pid, tier, seed):
         raise CheckError("model self-test: MCRecv.lossy.cfg no longer shows F5/F10 (update known_findings.json and the model)")
     out["samples"].append(dict(model="MCRecv.tla", note="inbound QoS 1/2 exchanges, broker retransmission, session loss; one action per handler body"))
     return out
+
+
+def l1_lifecycle(pid, tier, seed):
+    """exhaustive TLC run of Lifecycle.tla (start / cancel / async_disconnect vs. requests in every phase);
+    Lifecycle.f13.cfg (code before the fix of F13) MUST violate Drained."""
+    out = dict(name="L1 Lifecycle.tla", states=0, transitions=0, violations=0, runs=[], samples=[])
+    r = run_model("Lifecycle.tla", "Lifecycle.cfg", ["Lifecycle.tla"], workers=8)
+    out["states"] += r["distinct"]; out["transitions"] += r["generated"]
+    out["runs"].append({k: r[k] for k in ("cfg", "generated", "distinct", "depth", "violated", "wall", "cached")})
+    for inv in r["violated"]:
+        out["violations"] += 1
+        log("VIOLATION property=%s replay=%s model=Lifecycle.cfg invariant=%s" % (pid, r["replay"], inv))
+    r = run_model("Lifecycle.tla", "Lifecycle.f13.cfg", ["Lifecycle.tla"], workers=8)
+    out["runs"].append({k: r[k] for k in ("cfg", "generated", "distinct", "depth", "violated", "wall", "cached")})
+    if not r["violated"]:
+        raise CheckError("model self-test: Lifecycle.f13.cfg (defect F13) was NOT caught by the model invariants")
+    out["samples"].append(dict(model="Lifecycle.tla", note="3 publishes x start/cancel/disconnect/timer/ack in every order"))
+    return out
